@@ -19,6 +19,7 @@ import (
 	"context"
 	"fmt"
 	"os"
+	"sync"
 
 	"github.com/bbva/qed/gossip"
 	"github.com/bbva/qed/log"
@@ -164,6 +165,8 @@ func (p publisherFactory) Metrics() []prometheus.Collector {
 
 var errorNoSnapshots error = fmt.Errorf("No snapshots were found on this batch!!")
 
+var publishedLock sync.Mutex
+
 func (p publisherFactory) New(ctx context.Context) gossip.Task {
 	QedPublisherBatchesReceivedTotal.Inc()
 	p.log.Infof("PublisherFactory creating new Task!")
@@ -176,6 +179,9 @@ func (p publisherFactory) New(ctx context.Context) gossip.Task {
 
 		batch := new(protocol.BatchSnapshots)
 		batch.Snapshots = make([]*protocol.SignedSnapshot, 0)
+		// tasks of different batches run concurrently: looking a snapshot up and
+		// remembering it must be one step, or two tasks both forward it
+		publishedLock.Lock()
 		for _, signedSnap := range b.Snapshots {
 			_, err := a.Cache.Get(signedSnap.Signature)
 			if err != nil {
@@ -184,6 +190,7 @@ func (p publisherFactory) New(ctx context.Context) gossip.Task {
 				batch.Snapshots = append(batch.Snapshots, signedSnap)
 			}
 		}
+		publishedLock.Unlock()
 
 		if len(batch.Snapshots) < 1 {
 			return errorNoSnapshots
